@@ -480,4 +480,19 @@ def Aligned : SLayout → List Nat → Prop
   | [], [] => True
   | _, _ => False
 
+/-! ## Specification vocabulary for the dynamic bound / step resolution (used by the C10 theorems) -/
+
+/-- product of the extents of the dynamic-step tiles in a list of (stride, extent) pairs -/
+def dynProd : List (Stride × Nat) → Nat
+  | [] => 1
+  | (s, b) :: r => (match s.step with | none => b | some _ => 1) * dynProd r
+
+/-- a dimension whose outermost bound is dynamic: (outermost step, static inner tiles) -/
+abbrev DynDim := Option Nat × List SStride
+
+def DynDim.toTStride (d : DynDim) : TStride := ⟨d.1, none⟩ :: d.2.map SStride.toStride
+
+/-- the bounds such a dimension resolves to at runtime extent `n` -/
+def DynDim.boundsFor (d : DynDim) (n : Nat) : List Nat := n / prodB d.2 :: d.2.map (·.bound)
+
 end SnaxVerif.Tsl
